@@ -1,5 +1,156 @@
-"""C01-compose (work in progress): the integrand pipeline composed from the lifted passes."""
+"""C01-compose: compute_form_data interpreted from source together with the integrand passes it calls
+(apply_algebra_lowering, apply_derivatives, apply_function_pullbacks, apply_integral_scaling,
+apply_geometry_lowering, remove_component_tensors, cancel_jacobian_products, remove_complex_nodes), on
+symbolic cell integrands over an affine triangle with symbolic vertices (sa/pipeworld.py).  For every
+integrand of the family and every combination of the integrand-level options the meaning of the resulting
+integrand must equal the meaning of the original one, times |detJ| * weight when integral scaling is requested.
+"""
+
+from __future__ import annotations
+
+import itertools
+
+from .. import sym, uflmodel, uflsem
+from ..lift import LiftRaise, Unsupported
+from ..model import AnalysisError
+from ..pipeworld import PipeWorld
+from ..uflmodel import MI, new_index, node
+from ..uflsem import T, as_T, equal_T
+
+OPTS = ["do_apply_function_pullbacks", "do_apply_integral_scaling", "do_apply_geometry_lowering", "do_cancel_jacobian_products", "do_remove_component_tensors"]
+
+
+def family(W: PipeWorld):
+    um = uflmodel
+    cm = W.H.ref
+    f = W.function("f", (), "Coefficient", number=1)
+    g = W.function("g", (), "Coefficient", number=2, degree=2)
+    v = W.function("v", (), "Argument", number=0)
+    q = W.function("q", (2,), "Coefficient", mapping="contravariant Piola", number=3)
+    p = W.function("p", (2,), "Coefficient", mapping="covariant Piola", number=4)
+    u = W.function("u", (2,), "Coefficient", number=5)
+    x = W.geometry("SpatialCoordinate")
+    vol = W.geometry("CellVolume")
+    i, j = new_index(), new_index()
+
+    def idx(A, *k):
+        return um.m_indexed(A, MI(k))
+
+    def div(A):
+        G = W.grad(A)
+        r = len(A.shape)
+        data = {}
+        for c in itertools.product(*[range(d) for d in A.shape[:-1]]):
+            acc = sym.ZERO
+            for k in range(A.shape[-1]):
+                acc = sym.add(acc, G.get(c + (k, k)))
+            data[(c, ())] = acc
+        return node(T(A.shape[:-1], (), (), data), "Div", (A,))
+
+    E = []
+    add = lambda d, e: E.append((d, e))  # noqa: E731
+    add("f*g", um.m_product(f, g))
+    add("inner(grad(f), grad(v))", cm["Inner"](W.grad(f), W.grad(v)))
+    add("dot(q, grad(f))   (contravariant Piola q)", cm["Dot"](q, W.grad(f)))
+    add("div(q)*v", um.m_product(div(q), v))
+    add("x[0]*f*v", um.m_product(um.m_product(idx(x, 0), f), v))
+    add("CellVolume*f", um.m_product(vol, f))
+    add("dot(p, q)   (covariant . contravariant)", cm["Dot"](p, q))
+    add("inner(grad(u), grad(u))", cm["Inner"](W.grad(u), W.grad(u)))
+    add("u[i]*grad(f)[i] (index notation)", um.m_index_sum(um.m_product(idx(u, i), idx(W.grad(f), i)), MI((i,))))
+    add("dot(p, grad(f))   (covariant Piola p)", cm["Dot"](p, W.grad(f)))
+    return E
+
+
+GEOMETRY_LOWERED = {"Jacobian", "JacobianInverse", "JacobianDeterminant", "CellVolume", "Circumradius", "FacetNormal", "CellNormal", "FacetArea"}
+
+
+def walk(t, seen=None):
+    seen = set() if seen is None else seen
+    if not isinstance(t, T) or id(t) in seen:
+        return
+    seen.add(id(t))
+    yield t
+    for o in t.tags.get("ufl_operands", ()):
+        yield from walk(o, seen)
+
+
+def postconditions(e, o):
+    """what each option promises about the *form* of the preprocessed integrand"""
+    nodes = list(walk(e))
+    cls = lambda t: t.tags.get("ufl_class")  # noqa: E731
+    compound = {"Inner", "Dot", "Outer", "Cross", "Div", "Curl", "NablaGrad", "NablaDiv", "Transposed", "Trace", "Determinant", "Inverse", "Cofactor", "Deviatoric", "Skew", "Sym"}
+    left = sorted({cls(t) for t in nodes} & compound)
+    if left:
+        return f"compound tensor operators {left} survive algebra lowering"
+    for t in nodes:
+        if cls(t) in ("Grad", "ReferenceGrad"):
+            a = t.tags["ufl_operands"][0]
+            while cls(a) in ("Grad", "ReferenceGrad", "ReferenceValue"):
+                a = a.tags["ufl_operands"][0]
+            if not a.tags.get("_ufl_is_terminal_"):
+                return f"a derivative of the non-terminal {cls(a)} survives derivative expansion"
+    if o["do_apply_function_pullbacks"]:
+        under_rv = {id(t.tags["ufl_operands"][0]) for t in nodes if cls(t) == "ReferenceValue"}
+        for t in nodes:
+            if cls(t) in ("Coefficient", "Argument") and id(t) not in under_rv:
+                return f"the form argument {t.tags.get('desc')} is not expressed through its reference value although pullbacks were requested"
+            if cls(t) == "Grad":
+                return "a physical gradient survives although pullbacks were requested"
+    if o["do_apply_geometry_lowering"]:
+        left = sorted({cls(t) for t in nodes} & GEOMETRY_LOWERED)
+        if left:
+            return f"geometric quantities {left} survive geometry lowering"
+    if o["do_remove_component_tensors"] and any(cls(t) == "ComponentTensor" for t in nodes):
+        return "a ComponentTensor survives remove_component_tensors"
+    return None
 
 
 def compose(ctx, rep):
-    return 0
+    prog = ctx.prog
+    fn = prog.get_function("ufl.algorithms.compute_form_data", "compute_form_data")
+    combos = []
+    for bits in itertools.product((False, True), repeat=len(OPTS)):
+        o = dict(zip(OPTS, bits))
+        if o["do_cancel_jacobian_products"] and not o["do_apply_geometry_lowering"]:
+            continue
+        combos.append(o)
+    if not ctx.thorough():
+        keep = [(0, 0, 0, 0, 0), (1, 0, 0, 0, 0), (1, 1, 0, 0, 0), (1, 1, 1, 0, 0), (1, 1, 1, 1, 0), (1, 1, 1, 1, 1), (0, 1, 1, 0, 1), (0, 0, 1, 0, 0), (1, 0, 1, 1, 0)]
+        combos = [o for o in combos if tuple(int(o[k]) for k in OPTS) in keep]
+    n = 0
+    W0 = PipeWorld(ctx)
+    descs = [d for d, _ in family(W0)]
+    for k, desc in enumerate(descs):
+        for o in combos:
+            W = PipeWorld(ctx)
+            e = family(W)[k][1]
+            on = [kk.replace("do_", "") for kk in OPTS if o[kk]]
+            what = f"compute_form_data({desc}*dx; {', '.join(on) or 'no integrand options'})"
+            try:
+                out = W.compute_form_data(W.form([W.integral(e)]), **o)
+                itgs = list(out)  # build_integral_data / FormData are the identity here: the integrals themselves
+                if len(itgs) != 1:
+                    rep.violation("C01-compose", fn, what, f"{what}: {len(itgs)} integrals come out of one")
+                    continue
+                got = as_T(itgs[0].attrs["integrand"]())
+            except LiftRaise as ex:
+                rep.violation("C01-compose", fn, what, f"{what}: preprocessing fails: {ex.what[:160]}")
+                continue
+            n += 1
+            want = as_T(e)
+            if o["do_apply_integral_scaling"]:
+                scale = T.scalar(sym.mul(sym.fn("abs", W.detJ), sym.sym("w")))
+                want = uflsem.t_mul(scale, want)
+            ok, how, wit = equal_T(got, want, rng=ctx.rng, real_only=True, points=6)
+            post = postconditions(got, o)
+            if ok and post:
+                rep.violation("C01-compose", fn, what + " (form of the result)", f"{what}: {post}")
+            elif ok:
+                rep.ok("C01-compose", fn, f"{what}: integrand meaning preserved ({how}); result has the promised form")
+            else:
+                rep.violation("C01-compose", fn, what, f"{what}: the preprocessed integrand does not mean the original one{' times |detJ|*weight' if o['do_apply_integral_scaling'] else ''} ({how}): {wit}", witness=wit)
+    if n < len(descs) * len(combos) // 2:
+        raise AnalysisError(f"only {n} of {len(descs) * len(combos)} pipeline cases could be interpreted")
+    rep.require_min("C01-compose", len(descs) * 4)
+    return n
